@@ -250,7 +250,10 @@ func (s *Session) Run(ctx context.Context, dir string, args ...string) error {
 						log.Printf("ignoring %s", line)
 						continue
 					} else {
-						for _, output := range iop.OutputSet {
+						for i := range iop.OutputSet {
+							// (By reference: a satisfied output
+							// must stay marked as satisfied.)
+							output := &iop.OutputSet[i]
 							if output.Bindingss != nil {
 								continue
 							}
